@@ -76,12 +76,122 @@ fail with a deadline error until the deadline is set again, and the connection w
 theorem idle_deadline (s : DL) (hi : s.active = false) :
     callAllowed (dstep s .fire) = false ∧ (dstep s .fire).closed = s.closed ∧
     callAllowed (dstep (dstep s .fire) .set) = true := by
-  simp [dstep, callAllowed, hi]
+  simp [dstep, dfire, callAllowed, hi]
 
 /-- **active deadline**: a timer that fires during a call cancels that call's context, which closes
 the connection (C10); the expired flag is not set. -/
 theorem active_deadline (s : DL) (ha : s.active = true) :
     (dstep s .fire).closed = true ∧ (dstep s .fire).expired = s.expired := by
-  simp [dstep, ha]
+  simp [dstep, dfire, ha]
+
+/-- a deadline that is already in the past when it is set **during** an active call is a deadline that
+fires during that call: the call's context is cancelled (the connection is closed) … -/
+theorem past_deadline_during_call (s : DL) (ha : s.active = true) :
+    (dstep s .setPast).closed = true := by
+  simp [dstep, dfire, ha]
+
+/-- … while set with no call active it only makes subsequent calls fail until the next reset. -/
+theorem past_deadline_idle (s : DL) (hi : s.active = false) :
+    callAllowed (dstep s .setPast) = false ∧ (dstep s .setPast).closed = s.closed ∧
+    callAllowed (dstep (dstep s .setPast) .set) = true := by
+  simp [dstep, dfire, callAllowed, hi]
+
+/-! #### programs: deadlines in the past / future / zero before, between and during calls, both sides -/
+
+def isBlocked : PEv → Bool
+  | .blockedPast _ => true
+  | _ => false
+
+/-- no call is active between the steps of a program (calls are steps). -/
+def Idle (s : DL2) : Prop := s.r.active = false ∧ s.w.active = false
+
+theorem pstep_idle (s : DL2) (e : PEv) (h : Idle s) : Idle (pstep s e).1 := by
+  obtain ⟨hr, hw⟩ := h
+  cases e with
+  | setZero sd | setFuture sd | setPast sd =>
+    cases sd <;> simp [pstep, DL2.put, DL2.get, dstep, dfire, Idle, hr, hw]
+  | call sd => simp [pstep, Idle, hr, hw]
+  | blockedPast sd =>
+    cases sd <;> simp only [pstep, DL2.get] <;> split <;>
+      simp [DL2.put, dstep, dfire, Idle, hr, hw]
+
+/-- **the connection stays usable**: whatever deadlines (past, future, zero) are set while no call is
+active, in any order and on either side, and whatever calls are made between them, the connection is
+never closed by the adapter. -/
+theorem idle_deadlines_never_close (es : List PEv) (s : DL2) (hi : Idle s) (hc : s.closed = false)
+    (hb : ∀ e ∈ es, isBlocked e = false) : (prun es s).1.closed = false := by
+  induction es generalizing s with
+  | nil => simpa [prun] using hc
+  | cons e es ih =>
+    simp only [prun]
+    have hi' := pstep_idle s e hi
+    have hc' : (pstep s e).1.closed = false := by
+      obtain ⟨hr, hw⟩ := hi
+      simp only [DL2.closed, Bool.or_eq_false_iff] at hc
+      have hbe := hb e (by simp)
+      cases e with
+      | setZero sd | setFuture sd | setPast sd =>
+        cases sd <;> simp [pstep, DL2.put, DL2.get, dstep, dfire, DL2.closed, hr, hw, hc.1, hc.2]
+      | call sd => simp [pstep, DL2.closed, hc.1, hc.2]
+      | blockedPast sd => simp [isBlocked] at hbe
+    exact ih _ hi' hc' (fun e he => hb e (by simp [he]))
+
+/-- **a past deadline during a blocked call fails it and closes the connection**, for every state a
+program can reach in which that call was allowed to start. -/
+theorem blocked_past_closes (s : DL2) (sd : Side) (hi : Idle s) (hok : callRes (s.get sd) = .ok) :
+    (pstep s (.blockedPast sd)).2 = some .fail ∧ (pstep s (.blockedPast sd)).1.closed = true := by
+  obtain ⟨hr, hw⟩ := hi
+  cases sd
+  · have hok' : callRes s.r = .ok := hok
+    simp [pstep, DL2.get, hok', DL2.put, DL2.closed, dstep, dfire]
+  · have hok' : callRes s.w = .ok := hok
+    simp [pstep, DL2.get, hok', DL2.put, DL2.closed, dstep, dfire]
+
+theorem dstep_closed_mono (d : DL) (e : DEv) (h : d.closed = true) : (dstep d e).closed = true := by
+  cases e <;> simp only [dstep, dfire] <;> (try split) <;> simp [h]
+
+/-- once closed, no call of either side succeeds, whatever is done to the deadlines afterwards. -/
+theorem closed_calls_never_ok (es : List PEv) (s : DL2) (hr : s.r.closed = true) (hw : s.w.closed = true) :
+    ∀ res ∈ (prun es s).2, res ≠ .ok := by
+  induction es generalizing s with
+  | nil => simp [prun]
+  | cons e es ih =>
+    simp only [prun]
+    intro res hres
+    rw [List.mem_append] at hres
+    have hkeep : (pstep s e).1.r.closed = true ∧ (pstep s e).1.w.closed = true := by
+      cases e with
+      | setZero sd | setFuture sd | setPast sd =>
+        cases sd <;> simp [pstep, DL2.put, DL2.get, dstep_closed_mono, hr, hw]
+      | call sd => simp [pstep, hr, hw]
+      | blockedPast sd =>
+        cases sd <;> simp only [pstep, DL2.get] <;> split <;>
+          simp [DL2.put, dstep_closed_mono _ _ (dstep_closed_mono _ _ (dstep_closed_mono _ _ hr)),
+            dstep_closed_mono _ _ (dstep_closed_mono _ _ (dstep_closed_mono _ _ hw)), dstep_closed_mono, hr, hw]
+    rcases hres with h | h
+    · cases e with
+      | setZero sd | setFuture sd | setPast sd => simp [pstep] at h
+      | call sd =>
+        cases sd <;> simp [pstep, DL2.get, callRes, hr, hw] at h <;> (subst h; split <;> simp)
+      | blockedPast sd =>
+        cases sd <;> simp only [pstep, DL2.get] at h <;> split at h <;> simp at h <;> subst h <;>
+          simp_all [callRes]
+    · exact ih _ hkeep.1 hkeep.2 res h
+
+/-- **until the deadline is reset**: after a past deadline set while idle, calls of that side fail with
+a deadline error; after the next zero / future deadline of that side they succeed again (the
+connection was not touched). -/
+theorem reset_restores (s : DL2) (sd : Side) (hi : Idle s) (hc : s.closed = false) :
+    let s1 := (pstep s (.setPast sd)).1
+    callRes (s1.get sd) = .deadline ∧
+    callRes ((pstep s1 (.setZero sd)).1.get sd) = .ok ∧
+    callRes ((pstep s1 (.setFuture sd)).1.get sd) = .ok := by
+  obtain ⟨hr, hw⟩ := hi
+  simp only [DL2.closed, Bool.or_eq_false_iff] at hc
+  cases sd <;> simp [pstep, DL2.put, DL2.get, dstep, dfire, callRes, hr, hw, hc.1, hc.2]
+
+/-- the premises are satisfiable and the program semantics is not trivial. -/
+example : (prun [.setPast .r, .call .r, .call .w, .setZero .r, .call .r, .blockedPast .w, .call .r] DL2.init).2
+    = [.deadline, .ok, .ok, .fail, .fail] := by decide
 
 end WS.Props.C18
